@@ -80,6 +80,9 @@ class Interp:
         self.mode = "code"  # or "spec"
         self.loop_ord: dict = {}
         self.comp_ord: dict = {}
+        self._maybe: dict = {}
+        self._comp_ctx = None
+        self._assuming: set = set()
 
     def index_function(self, fnode):
         """syntactic ordinals of loops and comprehensions (source order) - sidecar contracts are keyed by them"""
@@ -122,6 +125,17 @@ class Interp:
         raise NeedFork(t)
 
     def maybe_raise(self, cond, exc: ExcVal, st):
+        if self._comp_ctx is not None and isinstance(cond, SV) and not z3.is_true(z3.simplify(zbool(cond))) \
+                and not z3.is_false(z3.simplify(zbool(cond))):
+            # inside a comprehension the condition is about the generic element: either some element raises
+            # (one abstract exceptional path) or no element does (fact for every element in range)
+            key = ("comp", self._comp_ctx, exc.cls)
+            if key not in self._maybe:
+                self._maybe[key] = core.fresh(TBool, f"some_element_raises?{exc.cls}@comp{self._comp_ctx}")
+            if self.decide(self._maybe[key], st):
+                raise PyRaise(exc)
+            self.assume(st, SV(TBool, z3.Not(zbool(cond))))
+            return
         if self.decide(cond, st):
             raise PyRaise(exc)
 
@@ -154,8 +168,12 @@ class Interp:
             # external attribute chain, maybe modelled later
             return ModuleRef(dotted)
         # maybe a repo function without contract / class
-        head = dotted.rsplit(".", 1)[0]
+        head, last = dotted.rsplit(".", 1)
         if extract.is_module(head):
+            tree, _ = extract.load_module(head)
+            for node in tree.body:
+                if isinstance(node, ast.ClassDef) and node.name == last:
+                    return ClassRef(dotted)
             return FuncRef(dotted)
         return ModuleRef(dotted)
 
@@ -364,6 +382,9 @@ class Interp:
         idx = self.ev(n.slice, st)
         if isinstance(v, (ClassRef, ModuleRef, PyBuiltin)):
             return v  # typing subscripts
+        if isinstance(v, SV) and v.ty.kind == "u" and (v.ty.name, "__getitem__") in registry.METHODS:
+            c = registry.CONTRACTS[registry.METHODS[(v.ty.name, "__getitem__")]]
+            return self.call_contract(c, [v, idx], {}, st)
         if isinstance(v, SV) and v.ty.kind == "dict":
             k = lift(idx, v.ty.args[0])
             if self.mode == "code":
@@ -471,12 +492,12 @@ class Interp:
         return self.comprehension(n, st, "list")
 
     def ev_SetComp(self, n, st):
-        r = self.comprehension(n, st, "list")
+        r = self.comprehension(n, st, "set")
         if isinstance(r, list):
             if any(isinstance(x, SV) for x in r):
                 return lift(frozenset(r))
             return set(r)
-        return self.seq_to_set(r)
+        return r
 
     def ev_DictComp(self, n, st):
         return self.comprehension(n, st, "dict")
@@ -536,6 +557,14 @@ class Interp:
         # symbolic: define Comp_site(j) by recursion on the prefix length
         self.comp_no += 1
         ordinal = self.comp_ord.get(id(n), -1)
+        saved_ctx = self._comp_ctx
+        self._comp_ctx = ordinal
+        try:
+            return self._comprehension_symbolic(n, st, kind, g, it, inner, ordinal)
+        finally:
+            self._comp_ctx = saved_ctx
+
+    def _comprehension_symbolic(self, n, st, kind, g, it, inner, ordinal):
         j = core.fresh(TInt, "cj")
         elem = it.at(SV(TInt, j.t - 1))
         rng = z3.And(j.t >= 1, j.t <= as_int(it.length()).t)
@@ -559,7 +588,13 @@ class Interp:
         name = f"comp[{self.qualname}#{ordinal}@{next(core._FRESH)}]"
         F = z3.Function(name, z3.IntSort(), rty.sort())
         prev = F(j.t - 1)
-        if kind == "dict":
+        if kind == "set":
+            rty = TSet(ev_.ty)
+            F = z3.Function(name, z3.IntSort(), rty.sort())
+            prev = F(j.t - 1)
+            step = z3.Store(prev, ev_.t, z3.BoolVal(True))
+            base = z3.K(ev_.ty.sort(), z3.BoolVal(False))
+        elif kind == "dict":
             step = core.dict_set(SV(rty, prev), kv, vv).t
             base = core.dict_empty(rty).t
         else:
@@ -878,17 +913,24 @@ class Interp:
             uf_args.append(sv)
         uf_args = [a for a in uf_args if a is not None]
         cst = State(env, st.pc, st.decisions, st.assumed)
+        cmod = contract_module(c)
         for g, gexpr in c.where.items():
-            cst.env[g] = self.ev_contract_expr(gexpr, cst)
+            cst.env[g] = self.ev_contract_expr(gexpr, cst, cmod)
         if verify_requires and self.mode == "code":
             for i, r in enumerate(c.requires):
                 self.oblige(f"call{callno}:{c.qualname.rsplit('.', 1)[-1]}.requires[{i}]", st,
-                            self.ev_contract_expr(r, cst), "call-requires")
+                            self.ev_contract_expr(r, cst, cmod), "call-requires")
         if c.assumed:
             self.assumed_used.add(c.qualname)
         if self.mode == "code":
             for exc, when in c.raises.items():
-                w = self.ev_contract_expr(when, cst)
+                if when == "maybe":
+                    key = (callno, exc)
+                    if key not in self._maybe:
+                        self._maybe[key] = core.fresh(TBool, f"raises?{exc}@{callno}")
+                    w = self._maybe[key]
+                else:
+                    w = self.ev_contract_expr(when, cst, cmod)
                 self.maybe_raise(w, ExcVal(exc, ()), st)
         # result
         result = None
@@ -912,25 +954,34 @@ class Interp:
                 else:
                     result = core.fresh(rty, c.qualname.rsplit(".", 1)[-1])
         cst.env["result"] = result
-        for ename, e in c.ensures.items():
-            val = self.ev_contract_expr(e, cst)
-            if isinstance(val, tuple) and len(val) == 2 and val[0] == "__result__":
-                result = val[1]
-                cst.env["result"] = result
-                continue
-            self.assume(st, val)
+        nested = c.qualname in self._assuming
+        short = c.qualname.rsplit(".", 1)[1] + "("
+        self._assuming.add(c.qualname)
+        try:
+            for ename, e in c.ensures.items():
+                if nested and isinstance(e, str) and short in e:
+                    continue  # a mention of f inside f's own postcondition only gets the non-recursive clauses
+                if nested and callable(e):
+                    continue
+                val = self.ev_contract_expr(e, cst, cmod)
+                self.assume(st, val)
+        finally:
+            if not nested:
+                self._assuming.discard(c.qualname)
         return result
 
-    def ev_contract_expr(self, e, st):
+    def ev_contract_expr(self, e, st, module=None):
         if callable(e):
             return e(self, st)
         node = _parse_expr(e)
-        saved = self.mode
+        saved = self.mode, self.imports
         self.mode = "spec"
+        if module is not None:
+            self.imports = _imports_of(module)
         try:
             return self.ev(node, st)
         finally:
-            self.mode = saved
+            self.mode, self.imports = saved
 
     # builtins ----------------------------------------------------------------
     def call_builtin(self, name, args, kwargs, st, node):
@@ -982,6 +1033,9 @@ class Interp:
                 if any(isinstance(x, SV) for x in v):
                     return lift(frozenset(v))
                 return set(v) if name == "set" else frozenset(v)
+            if isinstance(v, ItemsIter) and v.mode == "keys":
+                d = v.d
+                return SV(TSet(d.ty.args[0]), d.ty.sort().dom(d.t))  # the key set of a dict is its domain
             if isinstance(v, SymIter):
                 return self.seq_to_set(self.materialize(v))
             raise Unsupported(f"{name}() of {type(v).__name__}")
@@ -989,6 +1043,8 @@ class Interp:
             if not args:
                 return dict(kwargs)
             v = args[0]
+            if isinstance(v, DefaultDict):
+                return v.as_dict()
             if isinstance(v, (dict,)) or (isinstance(v, SV) and v.ty.kind == "dict"):
                 return v
             if isinstance(v, list):
@@ -1133,6 +1189,8 @@ class Interp:
             if isinstance(obj, EnumVal):
                 return pyt is str and isinstance(obj.value, str)
             return isinstance(obj, pyt)
+        if isinstance(c, ModuleRef):
+            c = ClassRef(c.dotted)
         if isinstance(c, ClassRef):
             d = c.dotted
             if d in core.ENUMS_BY_DOTTED:
@@ -1231,7 +1289,17 @@ class Interp:
             return None
         if isinstance(tgt, ast.Name) and tgt.id in st.env:
             cur = st.env[tgt.id]
-            args = [self.ev(a, st) for a in call.args]
+            args = []
+            for a in call.args:
+                if isinstance(a, ast.Starred):
+                    v = self.ev(a.value, st)
+                    it_ = to_iter(v, site=f"{self.qualname}:{call.lineno}")
+                    if isinstance(it_, list):
+                        args.extend(it_)
+                    else:
+                        args.append(StarArgs(it_, v))
+                else:
+                    args.append(self.ev(a, st))
             new = self.mutate(cur, meth, args, st, call)
             if new is NotImplemented:
                 return None
@@ -1253,6 +1321,8 @@ class Interp:
         return None
 
     def mutate(self, cur, meth, args, st, node):
+        if isinstance(cur, Record) and (cur.cls, meth) in RECORD_MUTATORS:
+            return RECORD_MUTATORS[(cur.cls, meth)](self, st, cur, args)
         if meth == "append":
             (x,) = args
             if isinstance(cur, list):
@@ -1356,6 +1426,12 @@ class Interp:
 
     def st_Assign(self, s, st):
         v = self.ev(s.value, st)
+        if isinstance(v, PendingTyped):
+            tname = s.targets[0].id if isinstance(s.targets[0], ast.Name) else None
+            decl = (self.contract.locals if self.contract is not None else {}).get(tname)
+            if decl is None:
+                raise Unsupported(f"'{tname}' needs a type in the sidecar 'locals' ({v.what})")
+            v = v.make(decl)
         for t in s.targets:
             self.assign(t, v, st)
         return [Outcome("fall", st)]
@@ -1523,6 +1599,9 @@ class Interp:
                 outs_done.append(Outcome("fall", cur))
         return outs_done
 
+    def ghost_terms(self):
+        return list(getattr(self, "ghosts", []))
+
     def loop_spec(self, ordinal):
         c = self.contract
         if c is None or ordinal not in c.loops:
@@ -1548,6 +1627,8 @@ class Interp:
             return core.fresh(lift(frozenset(v)).ty, hint)
         if isinstance(v, DefaultDict):
             return v.havoc(hint)
+        if isinstance(v, Record) and v.cls in core.RECORDS:
+            return make_record(v.cls, lambda path, fty: core.fresh(fty, f"{hint}.{path}"))
         return None
 
     def for_symbolic(self, s, it: SymIter, st):
@@ -1563,9 +1644,21 @@ class Interp:
         tnames = {x.id for x in ast.walk(s.target) if isinstance(x, ast.Name)}
         modified = [m for m in modified if m not in tnames]
 
+        pre_snapshot = {m + "__pre": st.env[m] for m in modified if m in st.env}
+        ghosts = self.ghost_terms()
+
+        def set_facts(state, k_term):
+            if isinstance(it, SetIter):
+                state.pc.append(it.member_fact(k_term))
+                state.pc.append(it.position_fact(k_term))
+
         def inv_terms(state, k_term):
             s2 = State(dict(state.env), list(state.pc), dict(state.decisions))
             s2.env["k"] = SV(TInt, k_term)
+            s2.env.update(pre_snapshot)
+            if isinstance(it, SetIter):
+                s2.env["ORDER"] = it.order
+                s2.env["POS"] = lambda ctx, st_, x: SV(TInt, it.pos(lift(x, it.s.ty.args[0]).t))
             out = []
             for nm, e in invs.items():
                 out.append((nm, self.ev_contract_expr(e, s2)))
@@ -1584,6 +1677,10 @@ class Interp:
                 except core.LiftError as e:
                     raise Unsupported(f"loop #{ordinal}: cannot lift initial {m}: {e}")
         # 1. entry
+        if isinstance(it, SetIter):
+            for g_ in ghosts:
+                if g_.ty == it.s.ty.args[0]:
+                    init.pc.append(it.visited_fact(g_.t))
         for nm, g in inv_terms(init, z3.IntVal(0)):
             self.oblige(f"loop{ordinal}.invariant.{nm}.entry", init, g, "loop-entry", s.lineno)
         # 2. arbitrary iteration
@@ -1596,6 +1693,11 @@ class Interp:
             body_st.env[m] = hv
         havoc_env = dict(body_st.env)
         body_st.pc += [k.t >= 0, k.t < n_t]
+        set_facts(body_st, k.t)
+        if isinstance(it, SetIter):
+            for g_ in ghosts:
+                if g_.ty == it.s.ty.args[0]:
+                    body_st.pc.append(it.visited_fact(g_.t))
         for nm, g in inv_terms(body_st, k.t):
             self.assume(body_st, g)
         self.bind_target(s.target, it.at(k), body_st)
@@ -1615,6 +1717,10 @@ class Interp:
             exit_st.env[m] = self.havoc_like(havoc_env[m], m + "'")
         kk = core.fresh(TInt, "kexit")
         exit_st.pc += [kk.t == n_t, n_t >= 0]
+        if isinstance(it, SetIter):
+            for g_ in ghosts:
+                if g_.ty == it.s.ty.args[0]:
+                    exit_st.pc.append(it.visited_fact(g_.t))
         for nm, g in inv_terms(exit_st, kk.t):
             self.assume(exit_st, g)
         if s.orelse:
@@ -1742,33 +1848,54 @@ class ObjUnderConstruction:
         return f"<new {self.sort}>"
 
 
-class DefaultDict:
-    """defaultdict(set): symbolic map key -> set, total with default empty set."""
+class PendingTyped:
+    def __init__(self, what, make):
+        self.what, self.make = what, make
 
-    def __init__(self, kty, ety, term=None):
+
+class DefaultDict:
+    """defaultdict(set): symbolic map key -> set (total, default empty set) plus the set of touched keys.
+    The key insertion order is NOT tracked (it may depend on set iteration order)."""
+
+    def __init__(self, kty, ety, term=None, dom=None):
         self.kty, self.ety = kty, ety
         arr = z3.ArraySort(kty.sort(), TSet(ety).sort())
         self.term = term if term is not None else z3.K(kty.sort(), z3.K(ety.sort(), z3.BoolVal(False)))
+        self.dom = dom if dom is not None else z3.K(kty.sort(), z3.BoolVal(False))
         self.sort = arr
 
     def havoc(self, hint):
-        return DefaultDict(self.kty, self.ety, z3.Const(f"{hint}!{next(core._FRESH)}", self.sort))
+        n = next(core._FRESH)
+        return DefaultDict(self.kty, self.ety, z3.Const(f"{hint}!{n}", self.sort),
+                           z3.Const(f"{hint}.dom!{n}", z3.ArraySort(self.kty.sort(), z3.BoolSort())))
 
     def get(self, key):
         return SV(TSet(self.ety), z3.Select(self.term, lift(key, self.kty).t))
+
+    def has(self, key):
+        return SV(TBool, z3.Select(self.dom, lift(key, self.kty).t))
 
     def mutate_entry(self, interp, key, meth, args, st, node):
         cur = self.get(key)
         new = interp.mutate(cur, meth, args, st, node)
         if new is NotImplemented:
             raise Unsupported(f"defaultdict entry mutation {meth}")
-        return DefaultDict(self.kty, self.ety, z3.Store(self.term, lift(key, self.kty).t, new.t))
+        k = lift(key, self.kty).t
+        return DefaultDict(self.kty, self.ety, z3.Store(self.term, k, new.t), z3.Store(self.dom, k, z3.BoolVal(True)))
 
     def set(self, interp, key, v):
-        return DefaultDict(self.kty, self.ety, z3.Store(self.term, lift(key, self.kty).t, lift(v, TSet(self.ety)).t))
+        k = lift(key, self.kty).t
+        return DefaultDict(self.kty, self.ety, z3.Store(self.term, k, lift(v, TSet(self.ety)).t), z3.Store(self.dom, k, z3.BoolVal(True)))
+
+    def as_dict(self) -> SV:
+        """dict(d): same domain and values; key order unknown (fresh)"""
+        ty = TDict(self.kty, TSet(self.ety))
+        keys = core.fresh(TSeq(self.kty), "keyorder")
+        return SV(ty, ty.sort().mkdict(keys.t, self.dom, self.term))
 
 
 CONSTANTS: dict = {}
+RECORD_MUTATORS: dict = {}  # (record class, method) -> callable(ctx, st, record, args) -> new record
 EXTERNAL_ROOTS = {"sympy", "typing", "structlog", "lark", "pint", "attr", "graphlib", "collections", "functools",
                   "pathlib", "enum", "abc", "types", "re", "textwrap", "warnings", "typer", "logging", "myokit", "black"}
 registry.CALLABLE_SORTS = {}
@@ -1814,6 +1941,29 @@ def getattr_str(s: str, attr):
         return getattr(s, attr)(*args, **kwargs)
 
     return BoundMethod(s, attr, impl)
+
+
+_IMPORTS_CACHE: dict = {}
+
+
+def _imports_of(module):
+    if module not in _IMPORTS_CACHE:
+        try:
+            _IMPORTS_CACHE[module] = extract.import_table(module)
+        except extract.ExtractError:
+            _IMPORTS_CACHE[module] = {}
+    return _IMPORTS_CACHE[module]
+
+
+def contract_module(c):
+    if getattr(c, "_module", None) is None:
+        parts = c.qualname.split(".")
+        c._module = ""
+        for cut in range(len(parts) - 1, 0, -1):
+            if extract.is_module(".".join(parts[:cut])):
+                c._module = ".".join(parts[:cut])
+                break
+    return c._module or None
 
 
 _EXPR_CACHE: dict[str, ast.AST] = {}
